@@ -384,6 +384,39 @@ func (x *c14Run) checkListViews(l at.List, r *rng.R) {
 	if len(all) > 0 && firstAcc != nil {
 		x.fail("Reduce(nil initial)", "the first call receives the initial value nil as accumulator", fmt.Sprintf("%v", firstAcc))
 	}
+	// the accumulator is the caller's business: whatever Go value the function returns is what the next call receives
+	// and what Reduce returns in the end (a slice collecting the values, a struct, a pointer, a value of a named type)
+	type tally struct {
+		n    int
+		last any
+	}
+	type named int
+	if pan, msg := drive.Protect(func() {
+		got := l.Reduce([]any{}, func(acc any, v any) any { return append(acc.([]any), v) })
+		gs, ok := got.([]any)
+		if !ok {
+			x.fail("Reduce(slice accumulator)", "the []any the function returned last (the initial one on an empty list)", fmt.Sprintf("%T", got))
+			return
+		}
+		x.sameSeq("Reduce(slice accumulator)", gs, all, nil)
+		gt := l.Reduce(tally{}, func(acc any, v any) any { t := acc.(tally); return tally{t.n + 1, v} })
+		if t, ok := gt.(tally); !ok || t.n != len(all) {
+			x.fail("Reduce(struct accumulator)", fmt.Sprintf("a tally of %d calls", len(all)), fmt.Sprintf("%T %v", gt, gt))
+			return
+		}
+		cnt := new(int)
+		gp := l.Reduce(cnt, func(acc any, v any) any { *acc.(*int)++; return acc })
+		if gp != any(cnt) || *cnt != len(all) {
+			x.fail("Reduce(pointer accumulator)", fmt.Sprintf("the same *int, counting %d calls", len(all)), fmt.Sprintf("%T, %d calls", gp, *cnt))
+			return
+		}
+		gn := l.Reduce(named(0), func(acc any, v any) any { return acc.(named) + 1 })
+		if n, ok := gn.(named); !ok || int(n) != len(all) {
+			x.fail("Reduce(named int accumulator)", fmt.Sprintf("named(%d)", len(all)), fmt.Sprintf("%T %v", gn, gn))
+		}
+	}); pan {
+		x.fail("Reduce(accumulator of the caller's own type)", "the accumulator is handed from call to call as it is", "panic: "+msg)
+	}
 	if x.bad {
 		return
 	}
